@@ -110,7 +110,7 @@ def cases(run: Run):
         pattern[-1] = "obs"
         m = sum(dims)
         c = {
-            "n": n, "dims": dims, "alpha": alpha, "kappa": kappa, "beta": beta, "resample": rng.random() < 0.5, "flow": rng.choice(["direct", "engine"]), "pattern": pattern, "tuning": tuning,
+            "n": n, "dims": dims, "alpha": alpha, "kappa": kappa, "beta": beta, "resample": rng.random() < 0.5, "flow": rng.choice(["direct", "engine", "results"]), "pattern": pattern, "tuning": tuning,
             "x0": [Fraction(rng.randint(-20, 20), 4) for _ in range(n)], "L0": rand_lower(rng, n),
             "F": [[Fraction(rng.randint(-2, 2), rng.choice([4, 8, 16])) + (1 if i == j else 0) for j in range(n)] for i in range(n)],
             "Lq": [[(Fraction(rng.choice([1, 2]), 4) if i == j else Fraction(0)) for j in range(n)] for i in range(n)],
@@ -170,7 +170,8 @@ def impl_run(c):
     steps = []
     import copy
 
-    engine = c.get("flow") == "engine"
+    engine = c.get("flow") in ("engine", "results")
+    results = c.get("flow") == "results"  # every step handed back to the agent's filter through its result object
     for k, kind in enumerate(c["pattern"]):
         if engine:
             # the way the scenario drives a filter: a worker copy predicts and only the result fields are applied to the agent's filter;
@@ -184,12 +185,20 @@ def impl_run(c):
         obs = make_obs(c, c["ys"][k])
         if kind == "forecast-miss":
             (copy.deepcopy(f) if engine else f).forecast(obs)  # a look-ahead (as tasking does), then the observation is missed
+        if results and kind not in ("forecast-miss", "none"):
+            # a look-ahead on a worker copy applied as a forecast result (as the reward jobs do), then the update applied as an update result
+            look = copy.deepcopy(f)
+            look.forecast(obs)
+            look.getForecastResult().apply(f)
         upd = copy.deepcopy(f) if engine else f
         if kind in ("forecast-miss", "none"):
             upd.update([])
         else:
             upd.update(obs)
-        f = upd
+        if results:
+            upd.getUpdateResult().apply(f)
+        else:
+            f = upd
         if kind not in ("forecast-miss", "none"):
             rec.update(S=f.innov_cvr.copy(), C=f.cross_cvr.copy(), K=f.kalman_gain.copy())
         rec.update(est_x=f.est_x.copy(), est_p=f.est_p.copy())
@@ -323,8 +332,50 @@ def oracle(run: Run, c, impl, ref):
     return fails
 
 
+def to_lists(v):
+    if isinstance(v, np.ndarray):
+        return v.tolist()
+    if isinstance(v, dict):
+        return {k: to_lists(x) for k, x in v.items()}
+    if isinstance(v, (list, tuple)):
+        return [to_lists(x) for x in v]
+    if isinstance(v, (np.floating, np.integer)):
+        return v.item()
+    return v
+
+
+def worker_main():
+    """the cases on stdin, each run on the real filter in this fresh interpreter, results on stdout"""
+    cs = [dec(c) for c in json.loads(sys.stdin.read())]
+    out = []
+    for c in cs:
+        r = guarded(impl_run, c)
+        out.append([r[0], to_lists(r[1])])
+    print("WORKER-RESULT " + json.dumps(out))
+
+
+def impl_fresh(cs):
+    """result objects keep per-class state for the life of the interpreter: the hand-back flow is run in fresh interpreters, one in which the first
+    result ever applied after a prediction is a forecast (as in a scenario step) and one in which it is an update"""
+    import subprocess
+
+    if not cs:
+        return []
+    p = subprocess.run([sys.executable, "-u", str(Path(__file__).resolve()), "--worker"], input=json.dumps([enc(c) for c in cs]), capture_output=True, text=True, timeout=1200)
+    for line in p.stdout.splitlines():
+        if line.startswith("WORKER-RESULT "):
+            return [tuple(x) for x in json.loads(line[len("WORKER-RESULT "):])]
+    raise RuntimeError("fresh-interpreter run produced no result: " + (p.stderr or p.stdout)[-400:])
+
+
 def run_cases(run: Run, cs):
-    impls = [guarded(impl_run, c) for c in cs]
+    impls = [None if c.get("flow") == "results" else guarded(impl_run, c) for c in cs]
+    for first_obs in (True, False):
+        idx = [k for k, c in enumerate(cs) if c.get("flow") == "results" and (c["pattern"][0] == "obs") == first_obs]
+        got = guarded(impl_fresh, [cs[k] for k in idx])
+        for j, k in enumerate(idx):
+            impls[k] = got[1][j] if got[0] == "ok" else got
+        run.count("fresh-interpreter:" + ("forecast-first" if first_obs else "update-first"), len(idx))
     refs = [kf_reference(c) for c in cs]
     lines, spans = [], []
     for c, r in zip(cs, refs):
@@ -373,6 +424,8 @@ def search(run: Run):
 
 
 def main():
+    if "--worker" in sys.argv:
+        return worker_main()
     run = Run(
         PID,
         ["RV.Props.C06"],
